@@ -46,6 +46,9 @@ func extreme(v int) bool { return v < 0 || v > math.MaxInt32 }
 func bedClasses(f iogen.BedFile) []string {
 	l := []string{fmt.Sprintf("bed%d", f.N), fmt.Sprintf("write-width=%d", f.M)}
 	l = append(l, iogen.RouteClasses(f.Route)...)
+	if f.Generic != 0 {
+		l = append(l, "feature-of-another-type-written-as-bed")
+	}
 	nt := false
 	if f.M < f.N {
 		l = append(l, "narrower-write")
